@@ -204,6 +204,7 @@ def run(ctx):
     ctx.tick("probe")
     fails, labels, info = tlc.validate_execs("T_Session.tla", "T_Session.cfg", traces, ctx.workdir, "c21", chunks=10)
     ctx.add_validation(info, len(traces))
+    sc.note_labels(ctx, labels)
     for s in scripts:
         ctx.case(s, nontrivial=len(s) > 1)
     import session_model
